@@ -139,7 +139,7 @@ def c03_cells(tier="quick"):
         # a window strictly inside the horizon, every rotation of the member list (the optional / zero-duration
         # member first, in the middle, last)
         for rot, order in enumerate((["t2", "t0", "t1"], ["t0", "t2", "t1"], ["t0", "t1", "t2"])):
-            for mode in ("lax", "strict"):
+            for mode in ("lax", "strict", "tight"):
                 cells.append((f"OrderedTaskGroup3.window.{mode}.r{rot}.{tag}", base(7, mk(), constraints=[
                     {"id": "c", "kind": "OrderedTaskGroup", "tasks": order, "interval": [1, 6], "mode": mode}])))
             cells.append((f"OrderedTaskGroup3.length.r{rot}.{tag}", base(7, mk(), constraints=[
